@@ -368,3 +368,73 @@ MANIFEST_TEXT_EXTRA['C17'] = {
          'gated variants + correspondence run of each configuration; binary_search semantics. Assumed (run-time facts, covered by the '
          'cross-configuration run only): core::simd lane semantics, multiversion dispatch, CPU feature detection, simdutf8. Oracle findings of '
          'other properties in the simd-accel build (F5, &mut str validity) are not differences of logical results and are not counted here.'}
+PROPS_EXTRA['C01'] = {
+ 'thm_modules': ['EncodingRs.Thm.C01'],
+ 'harness_cfgs': ['default'],
+ 'generated': ['Gen.Encodings (the 40 Encoding initialisers: name, variant, single-byte table index; re-checked by encodings_kinds / encodings_count)',
+               'Gen.SingleByte (27 tables x 128 entries; re-checked equal to the vendored single-byte indexes by single_byte_tables_eq_snapshot)',
+               'Gen.Tables{Big5,Jis,Korean,Gb} (every decode table, through the complete finite step checks big5_fin, eucKr_fin, shiftJis_fin, eucJp_fin, '
+               'gb_one_check, gb_ranges_check, iso_trail_check against the vendored indexes)'],
+ 'correspondences': ['specdec: for every generated byte stream and each of the 40 encodings, the events of the REAL decoder (new_decoder_without_bom_handling, '
+                     'decode_to_utf16_without_replacement on one query-sized buffer with last=true, called again after every Malformed(len, after); scalar values '
+                     'and error spans start = consumed - after - len) = the output of the EXECUTABLE transcription of the Standard (Spec.Decode.run of the decoder '
+                     'that Spec.Decode.decoderOfName gives for the name of the encoding in the regenerated Gen.encodings). This is also the failing-input search '
+                     'oracle of C01 (implementation vs Standard, no hand model in between); the hand models of the decoders are tied to the code by the dec '
+                     'correspondence of C02 and to the Standard by the theorems'],
+ 'rule': 'per encoding (all 40): the empty stream, all 256 one-byte streams, all two-byte streams over a 64-byte class alphabet (every lead/trail/escape/digit range '
+         'boundary of every decoder; thorough: all 65536), all three-byte streams over a 16-byte alphabet, 2000 (thorough 50000) seeded streams from '
+         'dec::gen_stream (half encoder-produced mostly-valid text with 0-3 byte edits, class-alphabet strings, random bytes, BOM-like prefixes; lengths <= 12, '
+         'every fifth <= 120); targeted: complete rows (lead x all 256 second bytes) at the special regions of every two-byte index (Big5 0x87/0x88 incl. the four two-code-point pointers, Shift_JIS kana / NEC / IBM / end-user-defined rows, EUC-KR, EUC-JP, gb18030/GBK corners, ISO-2022-JP rows after ESC $ B), EUC-JP 0x8F/0x8E three- and four-byte forms with every class byte, gb18030/GBK four-byte sequences at pointers 0, 35/36, '
+         '7456..7458, 39393..39395, 39418..39421, 188999..189001, 1237574..1237577, 1587599 complete / truncated / with every class byte in third and fourth '
+         'place and followed by ASCII or a new sequence, every 97th BMP pointer, UTF-8 lead x continuation boundary grids of length 2-4, ISO-2022-JP every pair '
+         'of escape fragments after 8 prefixes (each output state, inside a two-byte character) followed by class bytes, UTF-16LE/BE all triples of 8 boundary '
+         'units incl. truncations. In the harness the UTF-8 sink must say the same as the UTF-16 sink and the Malformed numbers must be in the documented ranges '
+         '(oracles). distinct = distinct operation lines; non-trivial = stream not empty',
+ 'trivial_re': '^specdec \\S+ \\. => ',
+ 'trusted': ['lean/EncodingRs/Spec/Decode.lean: hand transcription of the decoder handlers and of the run loop of the WHATWG Encoding Standard (UTF-8, single-byte, '
+             'gb18030, Big5, EUC-JP, ISO-2022-JP, Shift_JIS, EUC-KR, replacement, shared UTF-16, x-user-defined), written from memory of the Standard (no network on '
+             'this machine); errors are recorded and the loop continues (the Standard\'s error mode "replacement" with the error in place of U+FFFD)',
+             'error-span annotation of every "return error" in Spec/Decode.lean (error len after): DESIGN.md Appendix A, our reading of the crate documentation of '
+             'DecoderResult::Malformed',
+             'vendored reference data (spec/PROVENANCE.md): index-{big5,euc-kr,gb18030,jis0208,jis0212}.txt and index-jis0208-tail.txt (pointers 8836..11279, needed '
+             'by Shift_JIS) reconstructed from tests/test_data of the pinned tree (independent of src/data.rs); index-gb18030-ranges.txt (206 pairs + the final '
+             '189000 -> U+10000) and index-single-byte.txt (27 x 128) are SNAPSHOTS of the pinned src/data.rs, the only copy on this machine (single-byte: '
+             'cross-checked against CPython codecs, 89 differences, all the known WHATWG deviations: C1 fill-ins, KOI8-U 0xAE/0xBE, windows-1255 0xCA)',
+             'native_decide (Lean compiler + evaluator) for the finite table obligations: big5_fin, eucKr_fin, shiftJis_fin (every lead state x 256 bytes + closure '
+             'of the state list + end of stream), eucJp_fin (191 states x 256 bytes), gb_one_check (126 first bytes x 256 bytes), gb_ranges_check (four-byte '
+             'pointers 0..39419), iso_trail_check (94 leads x 256 bytes); malformed_numbers additionally inherits the six *_checks axioms of Lemmas/ScalarFam*.lean (C05) through the reachable-state invariant variantScalar it is stated with; everything else is kernel-checked (decide +kernel for gb_none_check, ranges_all_le, '
+             'ranges_last, single_byte_tables_eq_snapshot, encodings_kinds)',
+             'the variant decoders\' hand models (Model/Fam/*.lean, Model/Data.lean) are tied to the code by the dec correspondence (C02) - C01\'s theorems are '
+             'about them; the direct implementation-vs-Standard run (specdec) does not go through them'],
+ 'assumptions': ['Appendix A error spans are our reading of the documentation (the Standard does not define error spans)',
+                 'bytes are naturals < 256 (hypothesis of every theorem); streams are complete (last = true); BOM handling off (C10 covers the BOM life cycle)',
+                 'the theorems are stated for the variant decoders through the chunk-free reference semantics ref; that every protocol-following call history '
+                 'reports exactly ref is C02 (history_eq_ref), that the with-replacement methods equal the manual procedure is C09'],
+ 'partial': ['single-byte indexes and index gb18030 ranges are compared with a snapshot of the pinned data.rs, not with an independent copy of the Standard',
+             'malformed_numbers is stated per step / end of stream on the model under the reachable-state invariant of Lemmas.Scalar.variantScalar; its lift to '
+             'call results is C06 (G3), the position formula start = consumed - after - len is Model.mkErr by definition and is checked on the implementation by '
+             'the specdec correspondence'],
+}
+
+MANIFEST_TEXT_EXTRA['C01'] = {
+ 'design_ref': 'DESIGN.md 3.3, 3.5, 4 C01, Appendix A',
+ 'technique': 'Lean 4 proof (generic simulation lemma with held bytes by induction along the reference semantics; symbolic step checks for the table-free machines; '
+              'complete finite evaluation over regenerated tables vs vendored indexes for the table-driven ones) + direct differential run of the real decoders '
+              'against the executable transcription of the Standard',
+ 'text': 'Theorems decode_conforms_<family> for all 13 variant decoders (utf8, utf16 be/le, singleByte for an arbitrary index, userDefined, replacement, big5, '
+         'eucKr, shiftJis, eucJp, gb18030 (= GBK), iso2022Jp), decode_conforms (v : Gen.Variant), decode_conforms_encodings (each of the 40 encodings of the '
+         'regenerated Gen.encodings BY NAME: the decoder the Standard prescribes for that name), decode_unique, decodeRepl_conforms, hadErrors_conforms: for EVERY '
+         'byte list (no length bound) presented as a complete stream, the reference semantics of the model of the crate\'s decoder - scalar values and absolute '
+         'malformed spans (start, len) - is exactly the output of the literally transcribed WHATWG decoder run by the Standard\'s loop (relation Runs, proved '
+         'deterministic, and executable run with a proved fuel bound), one error event where the replacement mode pushes U+FFFD. Proof: generic simulation lemma '
+         'sim_conforms (held bytes: pending_ascii / Gb18030Pending::One, pending_prepended, pending_bmp correspond to the Standard\'s "restore to the I/O queue"; '
+         'each model micro-step is matched by <= 8 iterations of the Standard\'s loop) + per-family step checks; the table-driven parts are evaluated completely '
+         '(every state x byte; all four-byte gb18030 pointers 0..39419 + range arithmetic; 27 x 128 single-byte entries) with the regenerated implementation tables '
+         'on one side and the vendored indexes on the other, which subsumes "implementation table = Standard index" for decoding. malformed_numbers: every error '
+         'of every variant has 1 <= len <= 4, after <= 3, len + after <= 6. The real decoders are additionally compared directly with the executable transcription '
+         'on ~5*10^5 (quick) / ~4.9*10^6 (thorough, all 65536 two-byte strings x 40 encodings) streams per run.',
+ 'note': 'Trusted: Lean kernel + native_decide for 7 finite table evaluations; the transcription of the Standard in Spec/Decode.lean incl. the error-span annotation '
+         '(Appendix A = our reading of the docs); vendored indexes (multi-byte: reconstructed from tests/test_data, independent of data.rs; single-byte and gb18030 '
+         'ranges: snapshot of the pinned data.rs); translator; the hand models are tied to the code by the C02 correspondence, the implementation is tied to the '
+         'Standard directly by the specdec run.',
+}
